@@ -1,6 +1,7 @@
 import TextxVerif.Proofs.RrelComplete
 import TextxVerif.Proofs.RrelPath
 import TextxVerif.Proofs.RrelFuel
+import TextxVerif.Proofs.RrelTerm
 /-!
 # C11 — RREL reference resolution follows the documented expression semantics
 
@@ -46,39 +47,54 @@ theorem C11_complete (H : Heap) (n : Nat) (paths : List E) (o : Obj) (ns : List 
     ∀ p ∈ paths, ¬ ∃ t, Exp H p true (start o ns) t ∧ IsMatch H cls t :=
   (findPaths_spec H n cls (start o ns) paths [] hid (by simp)).1 W h
 
-/-- **A reference resolves whenever a matching object exists** — up to fuel: with all
-attributes resolved the answer is never "not found" and never `Postponed`; it is
-the match, unless the fuel given was too small (`C11_fuel_stable`: more fuel
-never changes an answer, so an answer other than `fuel` is final).
-Partial: no bound on the fuel that suffices is proved here (termination of the
-search needs the object graph to be finite, which `Heap` does not say). -/
-theorem C11_resolves_partial (H : Heap) (n : Nat) (paths : List E) (o : Obj) (ns : List String)
-    (cls : Option String) (hid : (paths.flatMap E.ids).Nodup) (hres : ∀ o a, H.attr o a ≠ none)
+/-- With every attribute resolved the search never answers `Postponed`. -/
+theorem C11_no_postponed (H : Heap) (n : Nat) (paths : List E) (o : Obj) (ns : List String)
+    (cls : Option String) (hres : ∀ o a, H.attr o a ≠ none) :
+    find H n paths o ns cls ≠ .postponed := by
+  have hk : ∀ t V, kTop H cls t V ≠ .postponed := by
+    intro t V; simp only [kTop]; split <;> simp
+  have : ∀ (ps : List E) (V : Vis), findPaths H n cls (start o ns) ps V ≠ .postponed := by
+    intro ps
+    induction ps with
+    | nil => intro V; simp [findPaths]
+    | cons p ps ih =>
+      intro V
+      simp only [findPaths]
+      cases hp : eval H n p true (start o ns) V (kTop H cls) with
+      | cont V1 => exact ih V1
+      | found s' => simp
+      | postponed => exact absurd hp (eval_ne_postponed H hres n p true _ V _ hk)
+      | fuel => simp
+  exact this paths []
+
+/-- **Termination.** On a finite object graph (`U` closed under attributes, parents and
+the `+m:` models) the search stops by itself: `fuelBound` — computed from the
+expression, the number of objects and the number of name parts — is enough fuel,
+whatever cycles the references form. -/
+theorem C11_terminates (H : Heap) (U : List Obj) (hU : FinHeap H U) (n : Nat) (paths : List E)
+    (o : Obj) (ho : o ∈ U) (ns : List String) (cls : Option String)
+    (hn : fuelBound U ns paths ≤ n) : find H n paths o ns cls ≠ .fuel :=
+  findPaths_term hU ns.length cls (start o ns) ⟨ho, Nat.le_refl _⟩ n paths []
+    (fun p hp => Nat.le_trans (need_le_fuelBound U ns paths p hp) hn)
+
+/-- **A reference resolves whenever a matching object exists.**  Finite object graph,
+all attributes resolved, some alternative has an expansion ending in an object
+that consumed every name part and conforms: then the search returns a match
+(which by `C11_sound` / `C11_precedence` is such an object, of the first
+alternative that has one). -/
+theorem C11_resolves (H : Heap) (U : List Obj) (hU : FinHeap H U) (n : Nat) (paths : List E)
+    (o : Obj) (ho : o ∈ U) (ns : List String) (cls : Option String)
+    (hn : fuelBound U ns paths ≤ n) (hid : (paths.flatMap E.ids).Nodup)
+    (hres : ∀ o a, H.attr o a ≠ none)
     (hex : ∃ p ∈ paths, ∃ t, Exp H p true (start o ns) t ∧ IsMatch H cls t) :
-    (∃ r, find H n paths o ns cls = .found r) ∨ find H n paths o ns cls = .fuel := by
+    ∃ r, find H n paths o ns cls = .found r := by
   cases hf : find H n paths o ns cls with
-  | found r => exact Or.inl ⟨r, rfl⟩
-  | fuel => exact Or.inr rfl
+  | found r => exact ⟨r, rfl⟩
+  | fuel => exact absurd hf (C11_terminates H U hU n paths o ho ns cls hn)
   | cont W =>
     obtain ⟨p, hp, hex⟩ := hex
     exact absurd hex (C11_complete H n paths o ns cls W hid hf p hp)
-  | postponed =>
-    exfalso
-    have hk : ∀ t V, kTop H cls t V ≠ .postponed := by
-      intro t V; simp only [kTop]; split <;> simp
-    have : ∀ (ps : List E) (V : Vis), findPaths H n cls (start o ns) ps V ≠ .postponed := by
-      intro ps
-      induction ps with
-      | nil => intro V; simp [findPaths]
-      | cons p ps ih =>
-        intro V
-        simp only [findPaths]
-        cases hp : eval H n p true (start o ns) V (kTop H cls) with
-        | cont V1 => exact ih V1
-        | found s' => simp
-        | postponed => exact absurd hp (eval_ne_postponed H hres n p true _ V _ hk)
-        | fuel => simp
-    exact this paths [] hf
+  | postponed => exact absurd hf (C11_no_postponed H n paths o ns cls hres)
 
 /-- **Precedence.** The result comes from the first comma-separated alternative
 that has a matching expansion at all: every alternative before the one that
@@ -151,6 +167,36 @@ example : find exH 6 [.cat (.atom 0 (.nav "a" .consume)) (.atom 1 (.nav "r" .til
 
 example : ([E.cat (.star 0 (.grp 1 (.alt (.atom 2 (.nav "a" .tilde)) (.atom 3 (.nav "r" .tilde)))))
       (.atom 4 (.nav "a" .consume))].flatMap E.ids).Nodup := by decide
+
+/-- the example heap is finite: objects 0..4 -/
+example : FinHeap exH [0, 1, 2, 3, 4] where
+  attr := by
+    intro o _ a l h x hx
+    simp only [exH] at h
+    split at h
+    · cases h; simp at hx ⊢; grind
+    · split at h
+      · cases h; simp at hx ⊢; grind
+      · split at h
+        · cases h; simp at hx ⊢; grind
+        · split at h
+          · cases h; simp at hx ⊢; grind
+          · cases h; simp at hx
+  parent := by
+    intro o _ p h
+    simp only [exH] at h
+    split at h
+    · cases h
+    · split at h
+      · cases h; simp
+      · split at h
+        · cases h; simp
+        · cases h
+  extra := by simp [exH]
+
+example : fuelBound [0, 1, 2, 3, 4] ["z"]
+    [.cat (.star 0 (.grp 1 (.alt (.atom 2 (.nav "a" .tilde)) (.atom 3 (.nav "r" .tilde)))))
+      (.atom 4 (.nav "a" .consume))] = 17 := by decide
 
 example : ∀ o a, exH.attr o a ≠ none := by
   intro o a; simp only [exH]; split <;> (try split) <;> (try split) <;> (try split) <;> simp
